@@ -13,6 +13,7 @@
 #include <cstdlib>
 #include <cstring>
 #include <string>
+#include <memory>
 #include <vector>
 #include <limits>
 
@@ -186,11 +187,47 @@ template<> struct Call<false> {
     }
 };
 
-static void run(const Prob& q)
+template<bool Dense> struct CallU;
+template<> struct CallU<true> {
+    template<typename S>
+    static void update(S& s, const Prob& q)
+    {
+        optional<CMatRef<T>> A, G;
+        optional<CVecRef<T>> b, h;
+        if (q.p > 0) { A.emplace(q.A); b.emplace(q.b); }
+        if (q.m > 0) { G.emplace(q.G); h.emplace(q.h); }
+        s.update(nullopt, optional<CVecRef<T>>(q.c), A, b, G, h, nullopt, nullopt);
+    }
+};
+template<> struct CallU<false> {
+    template<typename S>
+    static void update(S& s, const Prob& q)
+    {
+        SparseMat<T, I> A = q.A.sparseView();
+        SparseMat<T, I> G = q.G.sparseView();
+        A.makeCompressed(); G.makeCompressed();
+        optional<CSparseMatRef<T, I>> oA, oG;
+        optional<CVecRef<T>> b, h;
+        if (q.p > 0) { oA.emplace(A); b.emplace(q.b); }
+        if (q.m > 0) { oG.emplace(G); h.emplace(q.h); }
+        s.update(nullopt, optional<CVecRef<T>>(q.c), oA, b, oG, h, nullopt, nullopt);
+    }
+};
+
+// the solver of the last `end` stays alive so that a following `upd_end` problem (same sizes and patterns, new values of
+// c, A, b, G, h) can be applied to it through update(): the instantiation's update path is exercised as well
+static std::unique_ptr<Solver> g_solver;
+
+static void run(const Prob& q, bool as_update)
 {
-    Solver solver;
-    configure(solver.settings());
-    Call<kDense>::setup(solver, q);
+    if (!as_update || !g_solver) {
+        g_solver.reset(new Solver());
+        configure(g_solver->settings());
+        Call<kDense>::setup(*g_solver, q);
+    } else {
+        CallU<kDense>::update(*g_solver, q);
+    }
+    Solver& solver = *g_solver;
     Status st = solver.solve();
     const Result<T>& r = solver.result();
     printf("prob %s\n", q.name.c_str());
@@ -237,7 +274,8 @@ int main()
         else if (c == "h") fill_vec(q.h, q.m);
         else if (c == "lb") fill_vec(q.lb, q.n);
         else if (c == "ub") fill_vec(q.ub, q.n);
-        else if (c == "end") run(q);
+        else if (c == "end") run(q, false);
+        else if (c == "upd_end") run(q, true);
         else printf("error: unknown command %s\n", tok[0]);
     }
     free(line);
